@@ -17,6 +17,7 @@ package nathole
 import (
 	"fmt"
 	"net"
+	"sync"
 	"time"
 
 	"github.com/pion/stun/v2"
@@ -62,6 +63,8 @@ type discoverConn struct {
 
 	localAddr   net.Addr
 	messageChan chan *Message
+	closeCh     chan struct{}
+	closeOnce   sync.Once
 }
 
 func listen(localAddr string) (*discoverConn, error) {
@@ -82,14 +85,14 @@ func listen(localAddr string) (*discoverConn, error) {
 		conn:        conn,
 		localAddr:   conn.LocalAddr(),
 		messageChan: make(chan *Message, 10),
+		closeCh:     make(chan struct{}),
 	}, nil
 }
 
+// Close never closes messageChan: readLoop is its only sender and may be blocked in (or on its way
+// to) a send. Closing closeCh releases it, closing the socket ends it.
 func (c *discoverConn) Close() error {
-	if c.messageChan != nil {
-		close(c.messageChan)
-		c.messageChan = nil
-	}
+	c.closeOnce.Do(func() { close(c.closeCh) })
 	return c.conn.Close()
 }
 
@@ -102,9 +105,13 @@ func (c *discoverConn) readLoop() {
 		}
 		buf = buf[:n]
 
-		c.messageChan <- &Message{
+		select {
+		case c.messageChan <- &Message{
 			Body: buf,
 			Addr: addr.String(),
+		}:
+		case <-c.closeCh:
+			return
 		}
 	}
 }
